@@ -910,7 +910,10 @@ def check_r11e(repo, rep, uni):
             continue
         for loop in [x for x in model.walk_shallow(fi.node)
                      if isinstance(x, ast.For)]:
-            if not (model.names_loaded(loop.iter) & sources):
+            # what is looped over, through locals (unseen = filterfalse(..))
+            loop_src = norm.subst_locals(fi.node, loop.iter,
+                                         only_pure=False)
+            if not (model.names_loaded(loop_src) & sources):
                 continue
             if any(isinstance(x, (ast.For, ast.While))
                    for s in loop.body for x in model.walk_shallow(s)):
@@ -922,6 +925,15 @@ def check_r11e(repo, rep, uni):
             for lz in sorted(lazies):
                 cs = [c for s in loop.body for c in model.calls_in(s)
                       if isinstance(c.func, ast.Name) and c.func.id == lz]
+                # applications made for every element before the body sees
+                # it: inside a callable the loop's source is filtered or
+                # mapped with (filterfalse(lambda x: key(x) in seen, src))
+                pre = []
+                for lam in ast.walk(loop_src):
+                    if isinstance(lam, ast.Lambda):
+                        pre += [c for c in ast.walk(lam.body)
+                                if isinstance(c, ast.Call) and isinstance(
+                                    c.func, ast.Name) and c.func.id == lz]
                 if not cs:
                     continue
                 per = {}
@@ -932,6 +944,7 @@ def check_r11e(repo, rep, uni):
                 worst = 0
                 for path in gb.paths(max_visits=1, limit=500):
                     worst = max(worst, sum(per.get(x.id, 0) for x in path))
+                worst += len(pre)
                 n += 1
                 rep.ob('R11e', '%s/%s-per-element' % (fi.key, lz),
                        worst <= 1,
